@@ -8,7 +8,7 @@
     (= [in_polygon], the crossing count with the half-open rule). *)
 From Coq Require Import List Bool Arith ZArith PArith QArith Qabs Qreduction Sorted Permutation.
 From Gen Require Import GenGeom.
-From P Require Import Locate LocBasics LocSearch LocPolygon LocConvex LocStraight LocBlock LocTrack LocRefuted LineModel LocRect LocLine LocEnd LocMain LocOverlap.
+From P Require Import Locate LocBasics LocSearch LocPolygon LocConvex LocStraight LocBlock LocTrack LocRefuted LineModel LocRect LocLine LocEnd LocMain LocOverlap LocGaps.
 Import ListNotations.
 Open Scope Q_scope.
 
@@ -558,6 +558,39 @@ Example chords_do_not_overlap_ex :
   In 1%positive cols /\ In 4%positive cols /\ 1%positive <> 4%positive /\
   crossing (m_polygon 1) l1 l2 (1 # 26) (11 # 26) /\ crossing (m_polygon 4) l1 l2 (11 # 26) (21 # 26).
 Proof. exact ex_chords_hyps. Qed.
+
+(** the listed segments do not overlap: under the hypotheses of column_track_lists_exactly_the_crossed_columns,
+    of two entries of the sorted track that belong to different columns, the one with the smaller entry
+    distance ends (distance of its exit point) no later than the other begins, and it has positive length *)
+Theorem track_segments_do_not_overlap :
+  forall (polygon inters : colfun (list pt)) (tdist : pt -> Q) (maxside : colfun Q) (len : Q) (l1 l2 : pt)
+         (cols : list positive),
+  0 < len ->
+  (forall p t, pt_eq p (lpoint l1 l2 t) -> tdist p == len * t) ->
+  (forall c, In c cols -> 0 <= maxside c) ->
+  NoDup cols ->
+  (forall c, In c cols -> (3 <= length (polygon c))%nat /\ convex_ccw (polygon c)) ->
+  (forall c, In c cols -> off_edge_lines (polygon c) l1) ->
+  (forall c, In c cols -> off_edge_lines (polygon c) l2) ->
+  (forall c, In c cols -> forall h, In h (lpi_hits (polygon c) l1 l2) ->
+     0 <= h_xi0 h /\ h_xi0 h <= 1 /\ 0 < h_xi1 h /\ h_xi1 h < 1) ->
+  (forall c, In c cols -> dedup_ok (lpi_points (polygon c) l1 l2) (inters c)) ->
+  (forall t, 0 <= t -> t <= 1 -> forall c c', In c cols -> In c' cols ->
+     strictly_inside (polygon c) (lpoint l1 l2 t) -> strictly_inside (polygon c') (lpoint l1 l2 t) -> c = c') ->
+  forall d s d' s',
+  In (d, s) (keyed polygon inters tdist maxside l1 l2 cols) ->
+  In (d', s') (keyed polygon inters tdist maxside l1 l2 cols) ->
+  seg_col s <> seg_col s' -> d <= d' ->
+  tdist (seg_out s) <= tdist (seg_in s') /\ tdist (seg_in s) < tdist (seg_out s).
+Proof. exact listed_segments_disjoint. Qed.
+Print Assumptions track_segments_do_not_overlap.
+(** on the example of column_track_lists_exactly_the_crossed_columns_ex (whose hypotheses are these): two
+    listed entries, different columns, keys 10 <= 110 *)
+Example track_segments_do_not_overlap_ex :
+  map (fun e : Q * seg => (Qred (fst e), seg_col (snd e)))
+      (keyed m_polygon (fun c => lpi_points (m_polygon c) (50, -10) (50, 250)) ex_tdist2 (fun _ => 100)
+             (50, -10) (50, 250) [1; 4]%positive) = [(10, 1%positive); (110, 4%positive)].
+Proof. exact ex_listed_two. Qed.
 
 (** ** no hidden state (the model statement mirrored by the sequence oracle on the implementation):
     after any history of queries and edits the answer is that of the current geometry alone *)
